@@ -1,6 +1,8 @@
 package main
 
 import (
+	"sync"
+	"runtime"
 	"encoding/json"
 	"fmt"
 	"os"
@@ -109,8 +111,11 @@ func runCheckOn(tree, prop string) ([]string, int, string) {
 // the entries that concern that property are run.
 func cmdSelftest(repo string, only string) int {
 	corpus := loadCorpus()
-	bad := 0
-	ran := 0
+	type job struct {
+		ce    corpusEntry
+		props []string
+	}
+	var jobs []job
 	for _, ce := range corpus {
 		props := ce.Meta.Detected
 		if ce.Meta.Expect == "pass" {
@@ -131,42 +136,78 @@ func cmdSelftest(repo string, only string) int {
 			}
 			props = []string{only}
 		}
-		tree, err := scratchCopy(repo, filepath.Join(ce.Dir, "patch.diff"))
-		if err != nil {
-			// a corpus entry that no longer applies to the tree says nothing about the checks: it must be
-			// ported (tools/verify_on_head.sh) or retired, so it counts as unexpected
-			fmt.Printf("SELFTEST-STALE %s: %v\n", filepath.Base(ce.Dir), err)
-			bad++
-			continue
-		}
-		for _, p := range props {
-			ran++
-			viol, code, out := runCheckOn(tree, p)
-			switch ce.Meta.Expect {
-			case "violation":
-				if code == 1 && len(viol) > 0 {
-					fmt.Printf("SELFTEST-OK   %-28s %s raises %s\n", filepath.Base(ce.Dir), p, strings.Join(viol, ","))
-				} else {
-					bad++
-					fmt.Printf("SELFTEST-MISS %-28s %s exit=%d (expected a violation)\n", filepath.Base(ce.Dir), p, code)
-					if code == 2 {
-						fmt.Println(tailStr(out, 600))
-					}
-				}
-			default:
-				if code == 0 {
-					fmt.Printf("SELFTEST-OK   %-28s %s stays quiet\n", filepath.Base(ce.Dir), p)
-				} else {
-					bad++
-					fmt.Printf("SELFTEST-FALSE-ALARM %-22s %s exit=%d %s\n", filepath.Base(ce.Dir), p, code, strings.Join(viol, ","))
-					if code == 2 {
-						fmt.Println(tailStr(out, 600))
-					}
-				}
-			}
-		}
-		os.RemoveAll(tree)
+		jobs = append(jobs, job{ce, props})
 	}
+	// one worker per corpus entry at a time (each has its own scratch copy); the checks of one entry run in turn
+	workers := runtime.NumCPU() / 2
+	if workers < 1 {
+		workers = 1
+	}
+	if workers > 8 {
+		workers = 8
+	}
+	var mu sync.Mutex
+	bad, ran := 0, 0
+	ch := make(chan job)
+	var wg sync.WaitGroup
+	for w := 0; w < workers; w++ {
+		wg.Add(1)
+		go func() {
+			defer wg.Done()
+			for j := range ch {
+				ce := j.ce
+				var lines []string
+				nbad, nran := 0, 0
+				tree, err := scratchCopy(repo, filepath.Join(ce.Dir, "patch.diff"))
+				if err != nil {
+					// a corpus entry that no longer applies to the tree says nothing about the checks: it must be
+					// ported (tools/verify_on_head.sh) or retired, so it counts as unexpected
+					lines = append(lines, fmt.Sprintf("SELFTEST-STALE %s: %v", filepath.Base(ce.Dir), err))
+					nbad++
+				} else {
+					for _, p := range j.props {
+						nran++
+						viol, code, out := runCheckOn(tree, p)
+						switch ce.Meta.Expect {
+						case "violation":
+							if code == 1 && len(viol) > 0 {
+								lines = append(lines, fmt.Sprintf("SELFTEST-OK   %-28s %s raises %s", filepath.Base(ce.Dir), p, strings.Join(viol, ",")))
+							} else {
+								nbad++
+								lines = append(lines, fmt.Sprintf("SELFTEST-MISS %-28s %s exit=%d (expected a violation)", filepath.Base(ce.Dir), p, code))
+								if code == 2 {
+									lines = append(lines, tailStr(out, 600))
+								}
+							}
+						default:
+							if code == 0 {
+								lines = append(lines, fmt.Sprintf("SELFTEST-OK   %-28s %s stays quiet", filepath.Base(ce.Dir), p))
+							} else {
+								nbad++
+								lines = append(lines, fmt.Sprintf("SELFTEST-FALSE-ALARM %-22s %s exit=%d %s", filepath.Base(ce.Dir), p, code, strings.Join(viol, ",")))
+								if code == 2 {
+									lines = append(lines, tailStr(out, 600))
+								}
+							}
+						}
+					}
+					os.RemoveAll(tree)
+				}
+				mu.Lock()
+				for _, l := range lines {
+					fmt.Println(l)
+				}
+				bad += nbad
+				ran += nran
+				mu.Unlock()
+			}
+		}()
+	}
+	for _, j := range jobs {
+		ch <- j
+	}
+	close(ch)
+	wg.Wait()
 	fmt.Printf("selftest: %d runs, %d unexpected\n", ran, bad)
 	if bad > 0 {
 		return 3
